@@ -10,6 +10,14 @@
     derivs <r>                        → len=<entries> full=<vector> fresh=ok|skip  | panic(<kind>)
     clear t=<tape>                    WengertList::clear                                 → ok
     reset <r>                         Record::reset / do_reset   → idx=<index> const=<0|1>
+    clone <r> <a>                     Clone for Record           → v=… const=… idx=…  (nothing appended)
+    cmp <op> <a> <b>                  == != < <= > >= partial_cmp → c=…  (also across tapes: no
+                                      same_list test, no panic, nothing appended)
+    show <a>                          Display                    → s=<number>
+    clonetape src=<tape>              Clone for WengertList: a new tape (id = number of tapes so
+                                      far) with a copy of the entries                    → ok
+    rehome <r> <a> t=<tape>|none      Record::from_existing((a.number, a.index), list)
+                                                                 → v=… const=… idx=…
 
   `idx` is checked against "the number of entries on the tape before the operation" (the next
   unused position), `len` against the tape length.  `fresh`: beside the tapes of the case the
@@ -152,8 +160,58 @@ def stepReset (s : State) (k : Nat) : State × String :=
               info := s.info.set k ⟨e, tainted⟩ },
      s!"idx={r'.index} const=0" ++ (if ok then "" else " MODEL-SPEC-DISAGREE"))
 
+/-- a new slot whose record is not mirrored on the shadow tapes -/
+def State.pushUnmirrored (s : State) (name : String) (r : Rec Fp) : State :=
+  let e := match r.history with
+    | some t => s.epochOf t
+    | none => 0
+  { s with recs := s.recs ++ [r], shadow := s.shadow ++ [Rec.constant 0],
+           info := s.info ++ [⟨e, true⟩], names := (name, s.recs.length) :: s.names }
+
+def stepClone (s : State) (name : String) (k : Nat) : State × String :=
+  let r := (getRec s.recs k).clone
+  if s.bad k then
+    let s := s.taint (tapesOf s [k])
+    (s.pushUnmirrored name r, showRec r)
+  else
+    let e := match r.history with
+      | some t => s.epochOf t
+      | none => 0
+    ({ s with recs := s.recs ++ [r], shadow := s.shadow ++ [(getRec s.shadow k).clone],
+              info := s.info ++ [⟨e, false⟩], names := (name, s.recs.length) :: s.names },
+     showRec r)
+
 def step (s : State) (toks : List String) : State × String :=
   match toks with
+  | "cmp" :: op :: a :: b :: _ =>
+    match s.names.find a, s.names.find b with
+    | some a, some b =>
+      let (ra, rb) := (getRec s.recs a, getRec s.recs b)
+      (s, (cmpAnswer op (ra.eq rb s.w).1 (ra.partialCmp rb s.w).1).getD "bad-op")
+    | _, _ => (s, "bad-ref")
+  | "show" :: a :: _ =>
+    match s.names.find a with
+    | some k => (s, s!"s={(getRec s.recs k).display (fun x => toString x.val)}")
+    | none => (s, "bad-ref")
+  | "clone" :: name :: a :: _ =>
+    match s.names.find a with
+    | some k => stepClone s name k
+    | none => (s, "bad-ref")
+  | "clonetape" :: rest =>
+    match (optArg "src" rest).bind String.toNat? with
+    | some src =>
+      -- the copy is never mirrored on a shadow tape (until it is cleared)
+      ({ s with w := s.w.cloneTape src s.ntapes, ntapes := s.ntapes + 1, epoch := s.epoch ++ [0],
+                tainted := s.tainted ++ [true] }, "ok")
+    | none => (s, "bad-op")
+  | "rehome" :: name :: a :: rest =>
+    match s.names.find a with
+    | some k =>
+      let src := getRec s.recs k
+      let hist := (optArg "t" rest).bind String.toNat?
+      let r := Rec.fromExisting (src.number, src.index) hist
+      (s.pushUnmirrored name r, showRec r)
+    | none => (s, "bad-ref")
   | "@" :: "tapes" :: n :: _ =>
     match n.toNat? with
     | some n => ({ ntapes := n, epoch := List.replicate n 0, tainted := List.replicate n false }, "ok")
